@@ -42,8 +42,9 @@ Pick(S, r) == IF Cardinality(S) <= r THEN S
 -----------------------------------------------------------------------------
 (* Index of the universe.                                                   *)
 Strs  == {U[u].s : u \in 1..N}
-ByStr == [s \in Strs |-> {u \in 1..N : U[u].s = s}]
-ByCmd == [c \in CmdNames |-> {u \in Core : AltMatches(Cmd(c), U[u], V)}]
+\* (TLCEval: compute once; TLC would otherwise re-evaluate these lazy functions at every application)
+ByStr == TLCEval([s \in Strs |-> TLCEval({u \in 1..N : U[u].s = s})])
+ByCmd == TLCEval([c \in CmdNames |-> TLCEval({u \in Core : AltMatches(Cmd(c), U[u], V)})])
 
 StrIdx(s) == IF s \in Strs THEN ByStr[s] ELSE {}
 AltIdx(a) == IF a.cmd = "lit" THEN StrIdx(a.lit) ELSE ByCmd[a.cmd]
@@ -74,11 +75,11 @@ CrudeElem(w) ==
      ELSE AltE([i \in 1..Len(parts) |-> IF Join(parts[i]) \in DOMAIN CmdTable THEN Cmd(CmdTable[Join(parts[i])]) ELSE Lit(parts[i])], FALSE)
 Crude(cs) == LET ws == Words(cs) IN [i \in 1..Len(ws) |-> CrudeElem(ws[i])]
 
-LibParsed == [k \in 1..Len(Lib) |-> IF IsSimpleKind(Lib[k].kind) THEN ParseSimple(Lib[k].cs) ELSE Parse(Lib[k].cs)]
-LibElems  == [k \in 1..Len(Lib) |-> IF LibParsed[k].ok THEN LibParsed[k].elems ELSE Crude(Lib[k].cs)]
+LibParsed == TLCEval([k \in 1..Len(Lib) |-> TLCEval(IF IsSimpleKind(Lib[k].kind) THEN ParseSimple(Lib[k].cs) ELSE Parse(Lib[k].cs))])
+LibElems  == TLCEval([k \in 1..Len(Lib) |-> TLCEval(IF LibParsed[k].ok THEN LibParsed[k].elems ELSE Crude(Lib[k].cs))])
 
 AllElems == UNION ({RangeOf(LibElems[k]) : k \in 1..Len(Lib)} \cup {RangeOf(GenPattern(g)) : g \in MyGen})
-InfoTab  == [e \in AllElems |-> Info(e)]
+InfoTab  == TLCEval([e \in AllElems |-> TLCEval(Info(e))])
 
 Cover(p) ==
   LET n    == Len(p)
